@@ -102,6 +102,21 @@ func build(mode, runDir string) (string, error) {
 	case "cover":
 		args = append(args, "-cover", "-covermode=atomic", "-coverpkg=verif/harness/worker,github.com/woodsbury/jmespath/...")
 	}
+	// Development aid only (tools/mutant2.sh): build against a scratch copy of the library
+	// instead of /repo.  The registered commands never set it.
+	if o := os.Getenv("VERIF_REPO_OVERRIDE"); o != "" {
+		mod, err := os.ReadFile(filepath.Join(harnessDir, "go.mod"))
+		if err != nil {
+			return "", err
+		}
+		mf := filepath.Join(runDir, "go.mod")
+		os.WriteFile(mf, []byte(strings.Replace(string(mod), "=> /repo", "=> "+o, 1)), 0o644)
+		if sum, err := os.ReadFile(filepath.Join(harnessDir, "go.sum")); err == nil {
+			os.WriteFile(filepath.Join(runDir, "go.sum"), sum, 0o644)
+		}
+		args = append(args, "-modfile="+mf)
+		fmt.Printf("NOTE: building against %s instead of /repo (VERIF_REPO_OVERRIDE)\n", o)
+	}
 	args = append(args, "./worker")
 	cmd := exec.Command("go", args...)
 	cmd.Dir = harnessDir
@@ -517,6 +532,9 @@ func run(prop, tier string, seed int64) int {
 		fmt.Printf("KNOWN-FINDING: property=%s %s (rule %s, observed %d time(s) in this run)\n", f.Property, f.What, f.Rule, n)
 	}
 	replayDir := filepath.Join(verifDir, "replay", prop)
+	if os.Getenv("VERIF_REPO_OVERRIDE") != "" {
+		replayDir = filepath.Join(verifDir, ".run", "replay-override", prop)
+	}
 	seenRule := map[string]int{}
 	var printed int
 	for _, v := range unknown {
@@ -784,9 +802,14 @@ func writeEvidence(p *mon.Property, prop, tier string, seed int64, st stats, dis
 		"wall_s":      wall,
 		"violations":  nv,
 	}
-	os.MkdirAll(filepath.Join(verifDir, "evidence"), 0o755)
+	evDir := filepath.Join(verifDir, "evidence")
+	if os.Getenv("VERIF_REPO_OVERRIDE") != "" {
+		// development runs against a scratch copy never touch the committed evidence
+		evDir = filepath.Join(verifDir, ".run", "evidence-override")
+	}
+	os.MkdirAll(evDir, 0o755)
 	b, _ := json.MarshalIndent(ev, "", " ")
-	os.WriteFile(filepath.Join(verifDir, "evidence", prop+".json"), append(b, '\n'), 0o644)
+	os.WriteFile(filepath.Join(evDir, prop+".json"), append(b, '\n'), 0o644)
 }
 
 func replay(path string) int {
